@@ -176,6 +176,20 @@ def canon(line):
 
 def reconcile(impl, model):
     """substitute input classifications the model cannot compute (DESIGN.md §7 C15/C16)"""
+    if "#oc=" in impl:
+        # khist: one classification per successfully decoded key
+        def fix(im, mo):
+            out_i, out_m = [], []
+            for a, b in zip(im.split(" "), mo.split(" ")):
+                if "#oc=" in a:
+                    a, oc = a.split("#oc=")
+                    mm = re.search(r"OC\((ok:-?\d+)\)", b)
+                    if mm:
+                        b = b.replace(mm.group(0), mm.group(1) if oc == "t" else "err")
+                out_i.append(a); out_m.append(b)
+            return " ".join(out_i), " ".join(out_m)
+        if len(impl.split(" ")) == len(model.split(" ")):
+            impl, model = fix(impl, model)
     if "oc=" in impl and "oc=*" in model:
         oc = re.search(r"oc=(\S)", impl).group(1)
         impl = re.sub(r"oc=\S", "oc=*", impl)
